@@ -102,6 +102,16 @@ func (c15) Generate(r *core.Rng, run int, tier string) *core.History {
 			}
 			continue
 		}
+		if r.Bool(.2) {
+			// statements whose FIRST token is a string (a cut inside it leaves nothing but an open string), and
+			// lambdas without parameters inside open brackets (a cut between `()` and `=>`)
+			bg.AddFixed([]string{core.Pick(r, []string{
+				`"a string statement"`, "`a raw string\nstatement over two lines`", `"x y" + "z"`,
+				fmt.Sprintf(`ff9 = [() => %d, () => %d]`, r.Intn(9), r.Intn(9)), fmt.Sprintf(`println((() => %d)())`, r.Intn(9)),
+				fmt.Sprintf(`println(len([() => 1]), (() => { %d })())`, r.Intn(9)),
+			})})
+			continue
+		}
 		if secondMacro != "" && r.Bool(.3) {
 			bg.AddFixed([]string{fmt.Sprintf(`println(plus1(%d * 3))`, r.Intn(9))})
 			continue
